@@ -151,6 +151,12 @@ def replayWith (startF : Proc → Vars → St) (answerF : Proc → St → String
     match op with
     | none => pure ()
     | some ws =>
+      match ws with
+      | ["setvar", kvs] =>
+        -- the HOST changes instance variables (Process.Locator().SetVariable) while tokens are parked: every later
+        -- condition sees the new values
+        s := { s with vars := (parseVars kvs).foldl (fun vs (k, v) => vs.set k v) s.vars, obs := [] }
+      | _ =>
       match parseAnswer ws with
       | some (n, occ, a) => s := answerF p s n occ a
       | none => return { oos := some ("unsupported op " ++ " ".intercalate ws), causes := s.causes,
